@@ -483,6 +483,54 @@ func c10Jumps(c *eng.Ctx, r *eng.Report, rows []rowFx) {
 				}
 			}
 		}
+		// the destination is a 256-bit word: a value of 2^64 or more is no destination at all, it must not be cut
+		// down to its low 64 bits. Either validJumpdest narrows with Uint64WithOverflow and rejects on the flag, or
+		// (if it takes a uint64) every jump handler does before calling it.
+		narrowOK := func(fn *ssa.Function, at ssa.Instruction) bool {
+			for _, s2 := range eng.Sites(fn) {
+				if !strings.HasSuffix(s2.Name(), "uint256.Int).Uint64WithOverflow") {
+					continue
+				}
+				call, isC := s2.Instr.(*ssa.Call)
+				if !isC || call.Referrers() == nil {
+					continue
+				}
+				for _, ref := range *call.Referrers() {
+					ex, isE := ref.(*ssa.Extract)
+					if !isE || ex.Index != 1 {
+						continue
+					}
+					for _, cd := range eng.CondsAt(at) {
+						if cd.V == ssa.Value(ex) && !cd.True {
+							return true
+						}
+					}
+				}
+			}
+			return false
+		}
+		overflowOK := true
+		for _, b := range vj.Blocks {
+			for _, in := range b.Instrs {
+				if ret, ok := in.(*ssa.Return); ok && eng.Desc(eng.RetValue(ret, 0)) != "false" {
+					if !narrowOK(vj, ret) {
+						overflowOK = false
+					}
+				}
+			}
+		}
+		if !overflowOK {
+			// perhaps the callers narrow
+			overflowOK = true
+			for _, site := range c.Callers(vj) {
+				if !narrowOK(site.Fn, site.Instr) {
+					overflowOK = false
+				}
+			}
+		}
+		r.Check(overflowOK, rule, "vm.(*Contract).validJumpdest:word-width", c.Pos(vj.Pos()),
+			"a destination of 2^64 or more is rejected (Uint64WithOverflow, overflow flag on the accepting path)",
+			"the jump destination is narrowed from 256 to 64 bits without the overflow flag being tested on the accepting path: a JUMP to 2^64+d (or 2^255+d) whose low 64 bits point at a JUMPDEST continues there instead of halting with ErrInvalidJump")
 		r.Check(hasRange && hasJD && viaIsCode, rule, "vm.(*Contract).validJumpdest:conjuncts", c.Pos(vj.Pos()),
 			"validJumpdest accepts only when dest < len(code), code[dest] == JUMPDEST and isCode(dest)",
 			fmt.Sprintf("validJumpdest lost a conjunct (range=%v, ==JUMPDEST=%v, via isCode=%v)", hasRange, hasJD, viaIsCode))
